@@ -6,6 +6,7 @@ import (
 	"fmt"
 	"os"
 	"path/filepath"
+	"runtime/debug"
 	"sort"
 	"strconv"
 	"strings"
@@ -79,7 +80,7 @@ func main() {
 			func() {
 				defer func() {
 					if e := recover(); e != nil {
-						r.Obls = append(r.Obls, &report.Obligation{Rule: id + ".panic", Construct: "checker", Status: report.Undecided, Kind: "selftest", Detail: fmt.Sprint("checker panic: ", e)})
+						r.Obls = append(r.Obls, &report.Obligation{Rule: id + ".panic", Construct: "checker", Status: report.Undecided, Kind: "selftest", Detail: fmt.Sprint("checker panic: ", e, "\n", string(debug.Stack()))})
 					}
 				}()
 				spec.Run(ctx)
